@@ -62,16 +62,12 @@ Lemma tg_disconnected_nacks : forall s r s' o,
 Proof.
   intros s r s' o H. unfold tg_disconnected in H.
   destruct (tg_tls_close _) as [s3 o3]. inversion H; subst; clear H.
-  remember (match ts_sendq s with m :: _ => [ONack (tm_id m) r] | [] => [] end) as first.
-  remember (map (fun m => ONack (tm_id m) r) (tg_cons (ts_delayq s))) as dqn.
-  rewrite (app_assoc first dqn). rewrite tg_nonack_app.
-  destruct (first ++ dqn) as [|x l] eqn:E.
-  - simpl. reflexivity.
-  - assert (X : tg_is_nack x = true).
-    { subst first dqn. destruct (ts_sendq s).
-      - simpl in E. destruct (tg_cons (ts_delayq s)); simpl in E; inversion E; reflexivity.
-      - simpl in E. inversion E; reflexivity. }
-    unfold tg_nonack at 1. simpl. rewrite X. reflexivity.
+  destruct (ts_sendq s) as [|m q] eqn:SQ.
+  - simpl. destruct (tg_cons (ts_delayq s)) as [|x l]; reflexivity.
+  - destruct (tm_con m) eqn:C.
+    + unfold tg_cons at 2. simpl. rewrite C. simpl.
+      rewrite tg_nonack_app. unfold tg_nonack at 2. simpl. apply andb_false_r.
+    + reflexivity.
 Qed.
 
 Lemma tg_dtls_send_fifo : forall seen s m s' o bw,
